@@ -27,7 +27,7 @@ META = {
         '(D3) document framing in parser.parse: final newline optional, LF and CRLF blank lines separate grids, empty '
         'input yields None/[], single selects the first grid, bytes are decoded with the given charset before any '
         'regex.  (D4) the version sniffing regex accepts every header the grammar accepts and the grammar is selected '
-        'through Version.nearest.  Not decided: values computed by float/strptime/iso8601/tz conversion; PEG '
+        'through Version.nearest.  (D5) a timestamp with a zone name is converted with astimezone (the written instant is kept; clause shared with C17.D2); (D3) also: every rebinding of the document text in parser.parse is the decode or a tabled framing step, never a rewrite of the text (normalisation, replace, splitlines).  Not decided: values computed by float/strptime/iso8601/tz conversion; PEG '
         'commitment effects beyond D2 (the regular abstraction can miss, never invent, a spec-vs-reader failure).'),
     'rule_text': 'obligations = spec kinds x versions (inclusion + tie hazards), structure inclusion, action facts, '
                  'escape table rows, framing facts',
@@ -52,7 +52,12 @@ def run(ctx):
     _actions(ctx)
     _escape_table(ctx)
     _framing(ctx)
+    from . import _parse
+    _parse.text_flow(ctx, 'C03.D3', what='parsing a well-formed document')
     _version_sniff(ctx)
+    # timestamps with a zone name denote the written instant (clause shared with C17.D2)
+    from . import c17
+    c17._api(ctx, ctx.model, rule='C03.D5', only=('zincparser',))
 
 
 def _kinds(ctx, version):
